@@ -112,6 +112,11 @@ impl GenerationPass for LivenessPass {
                     // u_def[n] = (from_prevs - caller-saved) | ecall_returns
                     let (_, rets) = node.known_ecall_signature().unwrap_or_default();
                     (from_prevs - Register::caller_saved_set()) | rets
+                } else if node.is_indirect_call() {
+                    // u_def[n] = (from_prevs - caller-saved) | return-registers
+                    // The callee is not known: what it returns cannot be
+                    // checked, what it clobbers is gone.
+                    (from_prevs - Register::caller_saved_set()) | Register::return_set()
                 } else if node.is_return() {
                     // u_def[n] = from_prevs
                     from_prevs
